@@ -141,6 +141,8 @@ def report(prop, mod, m, tier, seed, wall, write_evidence=True):
         for r in inconclusive:
             lines.append(f"INCONCLUSIVE property={prop} reason={r[:600]}")
 
+    if os.environ.get("VK_REPO"):
+        write_evidence = False  # self-test against a scratch copy: evidence must only ever describe runs against /repo itself
     if write_evidence:
         os.makedirs(EVID, exist_ok=True)
         nt = len(m["nontrivial"])
